@@ -296,6 +296,13 @@ void t_printf_fp(Src &s, Case &c)
         fmt += ".*";
         args.push_back(Arg{pf::A_INT, sp.prec});
     }
+    // the l length modifier is allowed on floating conversions and has no effect (ISO C 7.21.6.1); a third of the directives
+    // carry it (a function of the directive's other fields, no extra choice)
+    if (((unsigned)sp.width * 5u + (unsigned)sp.prec * 3u + (unsigned)sp.conv + (unsigned)sp.prec_kind) % 3u == 0)
+    {
+        fmt += 'l';
+        c.label("l_modifier");
+    }
     fmt += sp.conv;
     Arg a{pf::A_DBL};
     a.d = x;
@@ -496,6 +503,13 @@ void t_printf_fp_wide(Src &s, Case &c)
     {
         fmt += ".*";
         args.push_back(Arg{pf::A_INT, sp.prec});
+    }
+    // the l length modifier is allowed on floating conversions and has no effect (ISO C 7.21.6.1); a third of the directives
+    // carry it (a function of the directive's other fields, no extra choice)
+    if (((unsigned)sp.width * 5u + (unsigned)sp.prec * 3u + (unsigned)sp.conv + (unsigned)sp.prec_kind) % 3u == 0)
+    {
+        fmt += 'l';
+        c.label("l_modifier");
     }
     fmt += sp.conv;
     Arg a{pf::A_DBL};
